@@ -15,16 +15,27 @@ TECHNIQUE = "exhaustive lattice of eigen-frames x eigenvalue sets against 50-dig
 LEVEL_TEXT = (
     "exp_matrix_2D and exp_matrix are evaluated on every matrix of a fixed product lattice "
     "(diagonal, triangular, rotation-like, generic complex and block-decoupled frames; eigenvalue "
-    "gaps >= 0.1, norms 0.1..50) and compared with a 50-digit reference exponential; the "
-    "projector identities are checked one by one"
+    "gaps >= 0.1, norms 0.1..50) and on the exponent matrices eko really builds at points of its Talbot "
+    "contour (LO singlet 2x2 in three kinematics, QED singlet 4x4 and valence 2x2), and compared with a "
+    "50-digit reference exponential; the projector identities are checked one by one"
 )
 LEVEL_NOTE = (
-    "decides the property on the lattice only; tolerance 1e-10 x (sum of projector norms); "
-    "degenerate spectra only in the block-decoupled form that the QED kernels produce at a_em = 0"
+    "decides the property on the lattice only; per-quantity tolerances 1e-13..5e-11 x (sum of projector norms), "
+    "each >= 10x above the measured maximum; degenerate spectra only in the block-decoupled form that the QED kernels "
+    "produce at a_em = 0 and as scalar 2x2 matrices; complex128 input only (a float64 matrix with complex eigenvalues "
+    "is not a 'complex matrix' of the statement and is not exercised)"
 )
 FLOOR_NONTRIVIAL = 40
 
-TOL = 1e-10
+TOL = 1e-10  # common ceiling (original tolerance); the per-quantity tolerances below are all tighter
+# per-quantity tolerances (units: kappa, kappa^2 for idem), >= 10x above the maxima measured on the unchanged tree in
+# both tiers incl. the physical matrices (measured maxima in comments)
+TOLS = {
+    "exp_matrix_2D": {"exp": 1e-12, "eig": 1e-13, "complete": 1e-12, "spectral": 1e-12, "idem": 1e-12},
+    #                 1.5e-14       1.6e-16       1.5e-14           1.5e-14           8.3e-15
+    "exp_matrix": {"exp": 5e-11, "eig": 1e-13, "complete": 1e-13, "spectral": 1e-13, "idem": 1e-13},
+    #              2.2e-12       2.8e-15       8.9e-16           1.7e-15           4.4e-15
+}
 
 # ---------------------------------------------------------------- lattice
 I2 = [[1, 0], [0, 1]]
@@ -78,6 +89,55 @@ LAM4 = [
 LAM4_DEG = [[0, 0, 5, 1.5], [1.25, 0, 0, -2]]
 DEG_FRAMES = ["diag", "block"]
 NQUICK2, NQUICK4 = 6, 4
+# 2x2 scalar matrix through exp_matrix (QED valence exponent at a_em = 0 where both diagonal entries coincide);
+# exp_matrix_2D is outside the statement there (det = 0): its behaviour is recorded as an outcome class, not judged
+LAM2_DEG = [[1.25, 1.25], [-3 + 2j, -3 + 2j]]
+
+# matrices eko really exponentiates: LO singlet exponents gamma_S^(0)(N) * j (kernels.singlet, j = j12 = ln(a0/a1)/beta0 range)
+# and the first-step exponent of singlet_qed.eko_iterate / valence_qed (4x4 / 2x2), at points of the singlet Talbot contour
+REAL_TX = [(0.5, 1e-7), (0.75, 0.1), (0.95, 0.1), (0.95, 0.9)]
+REAL_FAM2 = ["us", "ps", "ut"]
+REAL_J = [0.1, 1.0]
+REAL_QED = [("qed.singlet", 4), ("qed.valence", 2)]
+
+
+def talbot_singlet(t, x):
+    """eko.mellin.Path(t, ln x, axis_offset=True).n written out from the definition."""
+    import math
+
+    r = 0.4 * 16.0 / (0.1 - math.log(x))
+    th = math.pi * (2.0 * t - 1.0)
+    return complex(1.0 + r * (1.0 if t == 0.5 else th / math.tan(th)), r * th)
+
+
+def real_matrix(spec):
+    """The exponent matrix eko builds for the given physical configuration (the matrix is INPUT data of this property)."""
+    fam, nf = spec["family"], spec["nf"]
+    N = talbot_singlet(spec["t"], spec["x"])
+    if fam == "us":
+        from ekore.anomalous_dimensions.unpolarized import space_like as ad
+
+        return np.ascontiguousarray(ad.gamma_singlet((1, 0), N, nf, (0, 0, 0, 0, 0, 0, 0))[0]) * spec["j"]
+    if fam == "ps":
+        from ekore.anomalous_dimensions.polarized import space_like as ad
+
+        return np.ascontiguousarray(ad.gamma_singlet((1, 0), N, nf)[0]) * spec["j"]
+    if fam == "ut":
+        from ekore.anomalous_dimensions.unpolarized import time_like as ad
+
+        return np.ascontiguousarray(ad.gamma_singlet((1, 0), N, nf)[0]) * spec["j"]
+    # QED: ln = gamma(a_s, a_em) / beta(a_s, a_em) * delta_a of one iteration step (singlet_qed.eko_iterate written out)
+    from eko import beta
+    from ekore.anomalous_dimensions.unpolarized import space_like as ad
+
+    order = (2, 1)
+    f = ad.gamma_singlet_qed if fam == "qed.singlet" else ad.gamma_valence_qed
+    g = f(order, N, nf, (0, 0, 0, 0, 0, 0, 0))
+    a_lo, a_hi, aem = spec["a0"], spec["a1"], spec["aem"]
+    ah = 0.5 * (a_lo + a_hi)
+    bt = beta.beta_qcd((2, 0), nf) * ah**2 + beta.beta_qcd((3, 0), nf) * ah**3 + beta.beta_qcd((2, 1), nf) * ah**2 * aem
+    gam = sum(g[i, j] * ah**i * aem**j for i in range(order[0] + 1) for j in range(order[1] + 1))
+    return np.ascontiguousarray(gam / bt * (a_hi - a_lo))
 
 
 def _c(z):
@@ -128,17 +188,28 @@ def evaluate(case):
     from ekore import anomalous_dimensions as ad
 
     dim, frame = case["dim"], case["frame"]
-    lam = [_c(z) for z in case["lam"]]
     deg = bool(case.get("deg"))
-    M = build(dim, frame, lam)
+    if "real" in case:
+        M = np.array(real_matrix(case["real"]), dtype=complex)
+        lam = None
+    else:
+        lam = [_c(z) for z in case["lam"]]
+        M = build(dim, frame, lam)
     res = Result()
+    if M.shape != (dim, dim) or not np.all(np.isfinite(M)):
+        raise RuntimeError(f"C23 input matrix malformed for {case}: {M!r}")
     Eref, wref, Pref, scale, cross = reference(M)
     if cross > 1e-30 * max(1.0, sum(np.abs(P).max() for P in Pref)) ** 2 and not deg:
         raise RuntimeError(f"C23 reference routes disagree ({cross}) on {case}")
     kappa = max(1.0, sum(float(np.abs(P).max()) for P in Pref)) if not deg else 1.0
     normM = max(1.0, float(np.abs(M).max()))
     info = {}
-    where = f"dim={dim} frame={frame} lam={lam} M={M.tolist()}"
+    where = f"dim={dim} frame={frame} lam={lam} M={M.tolist()}" + (f" config={case['real']}" if "real" in case else "")
+    if not deg:
+        gap = min(abs(wref[i] - wref[j]) for i in range(dim) for j in range(i))
+        # the premise "well separated" as a measured quantity: |M| / smallest eigenvalue gap
+        key = "max_inv_gap_physical" if "real" in case else "max_inv_gap_lattice"
+        info[key] = float(np.abs(M).max() / gap) if gap > 0 else float("inf")
 
     def check(fname, exp, ws, Ps):
         sig = f"{fname}/dim={dim}/frame={frame}" + ("/degenerate" if deg else "")
@@ -158,12 +229,13 @@ def evaluate(case):
             for j in range(dim)
         )
         for k, v in m.items():
+            tol = min(TOL, TOLS[fname][k])
             key = f"max_{fname}_{k}_over_tol"
-            info[key] = max(info.get(key, 0.0), v / TOL)
-            if not v <= TOL:
+            info[key] = max(info.get(key, 0.0), v / tol)
+            if not v <= tol:
                 res.fail(
                     f"{sig}/{k}",
-                    f"{where}: {k} deviation {v:.3e} (in units of kappa={kappa:.3g}) > {TOL}; "
+                    f"{where}: {k} deviation {v:.3e} (in units of kappa={kappa:.3g}) > {tol}; "
                     f"got exp={np.asarray(exp).tolist()} ref={Eref.tolist()} eig={list(ws)} ref_eig={wref}",
                 )
 
@@ -174,6 +246,14 @@ def evaluate(case):
                 check("exp_matrix_2D", np.asarray(exp), [complex(lp), complex(lm)], [np.asarray(ep), np.asarray(em)])
             except Exception as e:  # noqa
                 res.fail(f"exp_matrix_2D/dim=2/frame={frame}/raises", f"{where}: {type(e).__name__}: {e}")
+        deg2d = ""
+        if dim == 2 and deg:
+            # outside the statement (not "well separated"); recorded, never judged
+            try:
+                out = ad.exp_matrix_2D(M.copy())
+                deg2d = "/degenerate-2D:" + ("finite" if np.all(np.isfinite(np.asarray(out[0]))) else "nan")
+            except Exception as e:  # noqa
+                deg2d = f"/degenerate-2D:raises-{type(e).__name__}"
         try:
             exp, w, e = ad.exp_matrix(M.copy())
             check("exp_matrix", np.asarray(exp), [complex(x) for x in w], [np.asarray(e[i]) for i in range(dim)])
@@ -182,7 +262,9 @@ def evaluate(case):
     info["max_kappa"] = kappa
     info["max_reference_cross_check"] = cross
     res.info = info
-    res.outcome = f"dim={dim}/{'deg' if deg else 'simple'}/" + ("ok" if not res.fails else "fail")
+    res.outcome = (
+        f"dim={dim}/{'deg' if deg else 'simple'}{'/physical' if 'real' in case else ''}/" + ("ok" if not res.fails else "fail") + deg2d
+    )
     return res
 
 
@@ -199,6 +281,31 @@ def cases(tier):
     for f in DEG_FRAMES:
         for lam in LAM4_DEG:
             out.append({"dim": 4, "frame": f, "lam": lam, "deg": True})
+    for lam in LAM2_DEG:
+        out.append({"dim": 2, "frame": "diag", "lam": lam, "deg": True})
+    out += real_cases(tier)
+    return out
+
+
+def real_cases(tier):
+    out = []
+    nfs = [3, 6] if tier != "thorough" else [3, 4, 5, 6]
+    for t, x in REAL_TX:
+        for nf in nfs:
+            for fam in REAL_FAM2:
+                for j in REAL_J:
+                    out.append({"dim": 2, "frame": f"physical.{fam}", "real": {"family": fam, "nf": nf, "t": t, "x": x, "j": j}})
+        for fam, dim in REAL_QED:
+            for nf in ([3, 5, 6] if tier == "thorough" else [5]):
+                # one iteration step a_s: 0.030 -> 0.020 (forward) and back, a_em = alpha/(4 pi)
+                for a0, a1 in ((0.030, 0.020), (0.020, 0.030)):
+                    out.append(
+                        {
+                            "dim": dim,
+                            "frame": f"physical.{fam}",
+                            "real": {"family": fam, "nf": nf, "t": t, "x": x, "a0": a0, "a1": a1, "aem": 0.00058},
+                        }
+                    )
     return out
 
 
@@ -210,11 +317,18 @@ def run(ctx):
         f"eigenvalue pairs (both exp_matrix_2D and exp_matrix) and {len(FRAMES4)} 4x4 frames x "
         f"{len(LAM4 if ctx.thorough() else LAM4[:NQUICK4])} eigenvalue quadruples (exp_matrix), gaps >= 0.1, |lambda| <= 50, "
         f"plus {len(DEG_FRAMES) * len(LAM4_DEG)} structurally degenerate block-decoupled 4x4 matrices; per matrix: exponential vs "
-        "50-digit mpmath, eigenvalue multiset, P_iP_j = delta_ij P_i, sum P_i = 1, M = sum lambda_i P_i; non-trivial = all"
+        "50-digit mpmath, eigenvalue multiset, P_iP_j = delta_ij P_i, sum P_i = 1, M = sum lambda_i P_i; non-trivial = all. "
+        f"Plus {len(LAM2_DEG)} scalar 2x2 matrices through exp_matrix (exp_matrix_2D recorded only), and {len(real_cases(ctx.tier))} "
+        "matrices eko really exponentiates: gamma_S^(0)(N) * j (unpolarised, polarised, time-like; j in "
+        f"{REAL_J}) and the first-step exponents of the QED singlet (4x4) and valence (2x2) iteration (order (2,1), a_s 0.03<->0.02), "
+        f"nf {'3-6' if ctx.thorough() else '3, 6 (QED: 5)'}, at the singlet Talbot contour points (t, x) in {REAL_TX} (Re N from 1.4 "
+        "down to -270); their |M| / min eigenvalue gap is recorded as max_inv_gap_physical"
     )
     ctx.assumptions += [
-        "tolerance 1e-10 in units of kappa = sum of the max-norms of the exact spectral projectors (kappa^2 for P_iP_j); "
-        "exp relative to max |e^lambda|, spectral identities relative to max(1,|M|)",
+        "per-quantity tolerances in units of kappa = sum of the max-norms of the exact spectral projectors (kappa^2 for P_iP_j): "
+        f"{TOLS}; exp relative to max |e^lambda|, spectral identities relative to max(1,|M|)",
+        "the physical matrices are built from ekore's anomalous dimensions (input data here) with the exponent formulas of "
+        "kernels.singlet / singlet_qed.eko_iterate written out in the check; the contour points are written out from eko.mellin's definition",
         "the reference is computed from the double-precision input matrix itself (mp.expm, cross-checked against the mp.eig spectral sum)",
         "between lattice points nothing is claimed; defective or nearly defective matrices (gap < 0.1) are outside the statement",
     ]
